@@ -255,7 +255,7 @@ fn main() {
     } else {
         parse_args()
     };
-    if std::env::var("XSG_CHILD_LIMITS").is_ok() {
+    if std::env::var("XSG_CHILD_LIMITS").is_ok() && !shard_run {
         report::apply_child_limits();
     }
     let started = Instant::now();
